@@ -27,6 +27,9 @@ class ExprError(Exception):
 
 
 def _myround(number_to_round, decimal_places):
+    # more digits than a double carries change nothing; unclamped, rounding an
+    # integer to -999999999 places computes 10**999999999 exactly
+    decimal_places = max(-400, min(400, int(decimal_places)))
     if int(decimal_places) == 0 and round(number_to_round + 1) - round(number_to_round) != 1:
         return number_to_round + abs(number_to_round) / number_to_round * 0.5  # simulate Python 2 rounding
         # via https://stackoverflow.com/questions/21839140/
